@@ -13,10 +13,10 @@
      - Parquet: row group k of a file written with max row-group size g holds rows
        [k*g, min((k+1)*g, n)); ironbeam's own writer uses the default g = 1048576;
      - glob: which of the three generated patterns matches a path (depth + extension).
+   Floats (kinds jf, jb): the contract is 'every finite f64 comes back bit-exact from all three
+   formats'; agree and prop coincide there (nothing but the libraries is involved).
    For the `jl` kind the model runs on the real bytes of the file: `lines`, `blank_line` and a
    strict parser for the one line shape the generator emits ({"id":N,"s":"alnum"}). *)
-From Coq Require Import Floats.
-From Coq Require Uint63.
 From Coq Require Import List ZArith NArith Bool String.
 From IB Require Import Util.J IO.Shards IO.Jsonl.
 Import ListNotations.
@@ -208,17 +208,6 @@ Fixpoint min_first (fuel : nat) (l : list (list Z * list Z)) : list (list Z * li
           m :: min_first f (filter (fun y => negb (zlist_eqb (fst y) (fst m))) l)
       end
   end.
-
-(* ---------- KNOWN-FINDING class: floats that serde_json's default parser does not read back ----------
-   serde_json (without its `float_roundtrip` feature) parses the decimal significand into a u64 and
-   computes (significand as f64) / 10^k: two roundings. For an integer-valued f64 k (printed as
-   "<digits>.0") that is fl(fl(10*|k|) / 10); the class is exactly the k for which this differs
-   from k. Executed with Coq's primitive floats (binary64, round to nearest even). *)
-Definition json_float_exact (k : Z) : bool :=
-  let a := Z.abs k in
-  PrimFloat.eqb
-    (PrimFloat.div (PrimFloat.of_uint63 (Uint63.of_Z (10 * a))) (PrimFloat.of_uint63 (Uint63.of_Z 10)))
-    (PrimFloat.of_uint63 (Uint63.of_Z a)).
 
 (* ---------- the check ---------- *)
 Definition all_true (l : list bool) : bool := forallb (fun b => b) l.
@@ -424,10 +413,21 @@ Definition check_main (kind : string) (input output : J) : verdict :=
     end
   else if String.eqb kind "jf" then
     match input, output with
+    (* the integer k as f64 (|k| < 2^53): every format returns it bit-exact (the library contract
+       de (ser r) = Some r; before commit dbceed9 serde_json lost e.g. 9007199254740991.0) *)
     | JL [JI k], JL [tag; JL [JB ej; JB ec; JB ep]] =>
         if (Z.abs k <? 9007199254740992) then
-          let m := json_float_exact k in
-          V (jtag_is "ok" tag && Bool.eqb ej m && ec && ep) (ej && ec && ep) (negb m) false
+          ok_verdict (jtag_is "ok" tag && ej && ec && ep) (ej && ec && ep)
+        else malformed
+    | _, _ => malformed
+    end
+  else if String.eqb kind "jb" then
+    (* the finite f64 with bit pattern hi * 2^32 + lo *)
+    match input, output with
+    | JL [JI hi; JI lo], JL [tag; JL [JB ej; JB ec; JB ep]] =>
+        if (0 <=? hi) && (hi <? 4294967296) && (0 <=? lo) && (lo <? 4294967296)
+           && negb (Z.land (Z.shiftr hi 20) 2047 =? 2047) then
+          ok_verdict (jtag_is "ok" tag && ej && ec && ep) (ej && ec && ep)
         else malformed
     | _, _ => malformed
     end
@@ -437,7 +437,7 @@ Definition check_main (kind : string) (input output : J) : verdict :=
    has no failure at all is a disagreement and a failed property instance, not a malformed case *)
 Definition is_panic (o : J) : bool := match o with JL [t] => jtag_is "panic" t | _ => false end.
 Definition known_kind (k : string) : bool :=
-  existsb (String.eqb k) ["jl"; "js"; "jw"; "cw"; "cs"; "ps"; "gl"; "jf"]%string.
+  existsb (String.eqb k) ["jl"; "js"; "jw"; "cw"; "cs"; "ps"; "gl"; "jf"; "jb"]%string.
 Definition check_C09 (kind : string) (input output : J) : verdict :=
   let v := check_main kind input output in
   if v_malformed v && is_panic output && known_kind kind then ok_verdict false false else v.
